@@ -214,7 +214,25 @@ fn expected_app_headers(c: &Case) -> Vec<(String, String)> {
 
 fn check(ctx: &Ctx, c: &Case, case_seed: u64, tmpdir: &std::path::Path) {
     let rep = &ctx.rep;
-    let b = build(c, tmpdir, case_seed);
+    crate::util::current_case(case_seed, "pure");
+    let b = match std::panic::catch_unwind(std::panic::AssertUnwindSafe(|| build(c, tmpdir, case_seed))) {
+        Ok(b) => b,
+        Err(_) => {
+            let p = crate::env::panics_take();
+            rep.eval(None);
+            rep.violation(Violation {
+                signature: "C19/build-or-print-panicked".into(),
+                what: format!(
+                    "building or printing the response panicked: {}",
+                    p.last().map(|x| format!("{} at {}", x.message, x.location)).unwrap_or_default()
+                ),
+                detail: J::obj().set("case", J::s(format!("{:?}", c).chars().take(600).collect::<String>())),
+                case_seed,
+                mode: "pure".into(),
+            });
+            return;
+        }
+    };
     let exp = expected_app_headers(c);
     let ctor_name = match c.ctor {
         Ctor::FromString(_) => "from_string",
